@@ -34,6 +34,9 @@ class LimitRegister(NoteTransformer):
         return self.note_max.scale_pitch
 
     def limit(self, note):
+        if note.type not in ('s', 'h'):
+            # rests, continuations and notes without a scale pitch are kept as they are
+            return note.copy()
         sp = note.scale_pitch
         if sp > self.pitch_max:
             return self.limit(note.o(-1))
